@@ -164,7 +164,7 @@ func init() {
 		Rule: "explicit-state BFS over event sequences with a recorder behind the real validator: after every accepted event the recorder must have grown by exactly that event (byte-equal arguments) or its documented substitute " +
 			"(nil big number -> null, NaN via float/decimal/big decimal -> NaN event of the same kind); extended alphabet of ~90 events (every scalar method × boundary values, arrays in all forms, comments, padding, error) to depth 3/4 and the structural C10 alphabet to depth 6/7; " +
 			"distinct_nontrivial = distinct (event class, context) pairs checked",
-		Assumptions:  []string{"nothing is asserted after a rejected event (statement is silent)"},
+		Assumptions: []string{"nothing is asserted after a rejected event (statement is silent)"},
 		TrustedBase: []string{"ev.Drive / ev.Recorder (self-tested: drive->record is the identity)"},
 		Guards:      map[string]int64{"accepted_transitions": 10000, "distinct:nontrivial": 300},
 		Run: func(c *fx.Ctx) {
